@@ -912,6 +912,15 @@ class RTCSctpTransport(AsyncIOEventEmitter):
             ochunk._retransmit = False
             if ochunk.flags & SCTP_DATA_LAST_FRAG:
                 break
+        else:
+            # the remaining fragments of the message have not been sent yet,
+            # abandon them too so that their TSNs get skipped
+            while self._outbound_queue:
+                ochunk = self._outbound_queue.popleft()
+                ochunk._abandoned = True
+                self._sent_queue.append(ochunk)
+                if ochunk.flags & SCTP_DATA_LAST_FRAG:
+                    break
 
         return True
 
@@ -1221,7 +1230,7 @@ class RTCSctpTransport(AsyncIOEventEmitter):
                     highest_newly_acked = schunk.tsn
 
             # strike missing chunks prior to HTNA
-            for schunk in self._sent_queue:
+            for schunk in list(self._sent_queue):
                 if uint32_gt(schunk.tsn, highest_newly_acked):
                     break
                 if schunk.tsn not in seen:
@@ -1518,7 +1527,7 @@ class RTCSctpTransport(AsyncIOEventEmitter):
         self.__log_debug("x T3 expired")
 
         # mark retransmit or abandoned chunks
-        for chunk in self._sent_queue:
+        for chunk in list(self._sent_queue):
             # the flight size is reset below, so no chunk counts as gap-acked
             # any more: it is booked again when it is retransmitted
             chunk._acked = False
